@@ -374,6 +374,11 @@ static inline int ubuf_block_delete(struct ubuf *ubuf, int offset, int size)
         return UBASE_ERR_INVALID;
 
     struct ubuf_block *head_block = ubuf_block_from_ubuf(ubuf);
+    int abs_offset = offset < 0 ? offset + (int)head_block->total_size : offset;
+    if (unlikely(abs_offset < 0 || size < -1 ||
+                 (size != -1 &&
+                  (size_t)abs_offset + size > head_block->total_size)))
+        return UBASE_ERR_INVALID;
     if (unlikely((ubuf = ubuf_block_get(ubuf, &offset, &size)) == NULL))
         return UBASE_ERR_INVALID;
     int delete_size = size;
